@@ -264,7 +264,7 @@ struct VBlock {
     MRec stats;
     unsigned bp_index = 0;
     size_t n_qr = 0, n_aec = 0, n_mm = 0;
-    CDNS::BlockParameters params;       // the parameter set the reader attached to the block
+    uint64_t params_fp = 0;             // fingerprint of the parameter set the reader attached to the block (params_fp())
 };
 struct VFile {
     std::vector<VBlock> blocks;
@@ -276,6 +276,41 @@ struct VFile {
     std::string error_type;
 };
 
+// cheap fingerprint of a parameter set (every member, absent/present distinguished; an empty list counts as absent)
+inline uint64_t params_fp(const CDNS::BlockParameters& bp) {
+    uint64_t h = 1469598103934665603ULL;
+    auto mixn = [&](uint64_t v) { for (int i = 0; i < 8; i++) { h = (h ^ ((v >> (8 * i)) & 0xff)) * 1099511628211ULL; } };
+    auto mixs = [&](const std::string& x) { mixn(x.size()); for (unsigned char c : x) h = (h ^ c) * 1099511628211ULL; };
+    auto& sp = bp.storage_parameters;
+    mixn(sp.ticks_per_second); mixn(sp.max_block_items);
+    mixn(sp.storage_hints.query_response_hints); mixn(sp.storage_hints.query_response_signature_hints); mixn(sp.storage_hints.rr_hints); mixn(sp.storage_hints.other_data_hints);
+    mixn(sp.opcodes.size()); for (auto o : sp.opcodes) mixn((uint64_t)o);
+    mixn(sp.rr_types.size()); for (auto o : sp.rr_types) mixn((uint64_t)o);
+    auto opt = [&](bool has, uint64_t v) { mixn(has ? 1 : 0); if (has) mixn(v); };
+    opt(!!sp.storage_flags, sp.storage_flags ? (uint64_t)*sp.storage_flags : 0);
+    opt(!!sp.client_address_prefix_ipv4, sp.client_address_prefix_ipv4 ? *sp.client_address_prefix_ipv4 : 0);
+    opt(!!sp.client_address_prefix_ipv6, sp.client_address_prefix_ipv6 ? *sp.client_address_prefix_ipv6 : 0);
+    opt(!!sp.server_address_prefix_ipv4, sp.server_address_prefix_ipv4 ? *sp.server_address_prefix_ipv4 : 0);
+    opt(!!sp.server_address_prefix_ipv6, sp.server_address_prefix_ipv6 ? *sp.server_address_prefix_ipv6 : 0);
+    mixn(!!sp.sampling_method); if (sp.sampling_method) mixs(*sp.sampling_method);
+    mixn(!!sp.anonymization_method); if (sp.anonymization_method) mixs(*sp.anonymization_method);
+    mixn(!!bp.collection_parameters);
+    if (bp.collection_parameters) {
+        auto& c = *bp.collection_parameters;
+        opt(!!c.query_timeout, c.query_timeout ? *c.query_timeout : 0);
+        opt(!!c.skew_timeout, c.skew_timeout ? *c.skew_timeout : 0);
+        opt(!!c.snaplen, c.snaplen ? *c.snaplen : 0);
+        opt(!!c.promisc, c.promisc ? *c.promisc : 0);
+        mixn(c.interfaces.size()); for (auto& x : c.interfaces) mixs(x);
+        mixn(c.server_address.size()); for (auto& x : c.server_address) mixs(x);
+        mixn(c.vlan_ids.size()); for (auto x : c.vlan_ids) mixn(x);
+        mixn(!!c.filter); if (c.filter) mixs(*c.filter);
+        mixn(!!c.generator_id); if (c.generator_id) mixs(*c.generator_id);
+        mixn(!!c.host_id); if (c.host_id) mixs(*c.host_id);
+    }
+    return h;
+}
+
 // CdnsBlock::m_block_parameters is protected: read it through a pointer to member formed in a derived class
 struct BlockParamsPeek : CDNS::CdnsBlock {
     static const CDNS::BlockParameters& of(const CDNS::CdnsBlock& b) { return b.*(&BlockParamsPeek::m_block_parameters); }
@@ -284,7 +319,7 @@ struct BlockParamsPeek : CDNS::CdnsBlock {
 inline VBlock view_block(CDNS::CdnsBlockRead& b) {
     VBlock v;
     v.bp_index = b.get_block_parameters_index();
-    v.params = BlockParamsPeek::of(b);
+    v.params_fp = params_fp(BlockParamsPeek::of(b));
     v.n_qr = b.get_qr_count();
     v.n_aec = b.get_aec_count();
     v.n_mm = b.get_mm_count();
